@@ -148,8 +148,13 @@ def run_forward(c, rec):
     yb = must(lambda: model.forward(f.copy(), is_par=False), "forward(funvals, is_par=False)")
     require(close(np.asarray(yb), y0, 1e-12), "forward on function values (is_par=False) differs", got=yb, want=y0)
     # (c,d) geometry-carrying arrays in either representation
+    # the array may carry the model's own geometry object or an equal geometry built separately (equality of geometries is by value)
+    dom_twin = make_geom(c["dom"])
+    twin_ok = dom_twin == dom
     for label, arr in (("parameters", cuqi.array.CUQIarray(p.copy(), is_par=True, geometry=dom)),
-                       ("function values", cuqi.array.CUQIarray(f.copy(), is_par=False, geometry=dom))):
+                       ("function values", cuqi.array.CUQIarray(f.copy(), is_par=False, geometry=dom))) + \
+            ((("parameters (equal geometry built separately)", cuqi.array.CUQIarray(p.copy(), is_par=True, geometry=dom_twin)),
+              ("function values (equal geometry built separately)", cuqi.array.CUQIarray(f.copy(), is_par=False, geometry=dom_twin))) if twin_ok else ()):
         yc = must(lambda: model.forward(arr), f"forward(CUQIarray of {label})")
         require(isinstance(yc, cuqi.array.CUQIarray), f"CUQIarray input ({label}) must give CUQIarray output")
         require(yc.is_par is True and yc.geometry == ran, f"output for CUQIarray of {label} is not flagged as parameters of the range geometry")
